@@ -191,7 +191,7 @@ func c09ConfigGen() *rapid.Generator[c09Config] {
 		c.TurnProto = rapid.SampledFrom([]string{"udp", "udp", "tcp", "tcp", "tls-handshake-fails"}).Draw(t, "turnProto")
 		c.TurnMode = rapid.SampledFrom([]string{"ok", "ok", "allocate-blocks", "allocate-blocks", "listen-error", "allocate-error", "factory-error", "relay-linklocal"}).Draw(t, "turnMode")
 		c.Mux = rapid.SampledFrom([]string{"", "", "udp", "tcp", "udp-srflx"}).Draw(t, "mux")
-		c.Rewrite = rapid.SampledFrom([]string{"", "", "srflx-mapped", "srflx-mapped-2", "srflx-mapped-unusable-first", "srflx-drop", "host-append", "host-dup", "relay-drop", "relay-append"}).Draw(t, "rewrite")
+		c.Rewrite = rapid.SampledFrom([]string{"", "", "srflx-mapped", "srflx-mapped-2", "srflx-mapped-unusable-first", "srflx-drop", "host-append", "host-dup", "relay-drop", "relay-append", "relay-dup"}).Draw(t, "rewrite")
 		if rapid.IntRange(0, 4).Draw(t, "listenErr") == 0 {
 			c.ListenErrAt = rapid.IntRange(1, 4).Draw(t, "listenErrAt")
 		}
@@ -350,6 +350,12 @@ func newC09World(cfg c09Config, extra ...AgentOption) (*c09World, error) {
 		if hasType(cfg.Types, CandidateTypeHost) {
 			// every interface address is replaced by the same external address: duplicates arise with ≥ 2 addresses on a mux
 			opts = append(opts, WithAddressRewriteRules(AddressRewriteRule{External: []string{"203.0.113.21"}, AsCandidateType: CandidateTypeHost, Mode: AddressRewriteReplace}))
+		}
+	case "relay-dup":
+		// the same external address twice (two spellings): the second alias is a duplicate candidate on the allocation
+		// that the first one lives on
+		if hasType(cfg.Types, CandidateTypeRelay) {
+			opts = append(opts, WithAddressRewriteRules(AddressRewriteRule{External: []string{"203.0.113.31", "::ffff:203.0.113.31"}, AsCandidateType: CandidateTypeRelay, Mode: AddressRewriteReplace}))
 		}
 	case "relay-append":
 		if hasType(cfg.Types, CandidateTypeRelay) {
@@ -516,7 +522,7 @@ func TestVerif_C09_SocketTally(t *testing.T) {
 		}
 		nOps := rapid.IntRange(1, 8).Draw(rt, "nOps")
 		for i := 0; i < nOps && !closed; i++ {
-			op := rapid.SampledFrom([]string{"gather", "gather", "release", "release", "turnRelease", "restart", "restartAndRegather", "failed", "settle", "settle", "close"}).Draw(rt, "op")
+			op := rapid.SampledFrom([]string{"gather", "gather", "release", "release", "turnRelease", "restart", "restartAndRegather", "failed", "settle", "settle", "quiesce", "close"}).Draw(rt, "op")
 			if i == 0 {
 				op = "gather" // every case starts a gathering cycle
 			}
@@ -551,6 +557,33 @@ func TestVerif_C09_SocketTally(t *testing.T) {
 					ops = append(ops, "releaseTurnAllocate")
 				default:
 				}
+			case "quiesce":
+				// let the running cycle finish; then what a listed candidate lives on must still be open:
+				// "released exactly once … when its candidate is removed", not while it is listed
+				if cfg.LongStunTimeout && cfg.StunMode == "never" && hasType(cfg.Types, CandidateTypeServerReflexive) {
+					break // (this cycle only ends with the 10 s STUN timeout: not waited for)
+				}
+				w.releaseEverything()
+				if !w.waitCycles() {
+					st.Inconclusive()
+					rt.Fatalf("VERIF-INCONCLUSIVE: gather cycle still running after 20 s")
+				}
+				var dead []string
+				_ = w.agent.loop.Run(w.agent.loop, func(context.Context) {
+					for _, set := range w.agent.localCandidates {
+						for _, c := range set {
+							if b := c17Base(c); b != nil {
+								if fs, ok := b.conn.(*fnSock); ok && fs.isClosed() {
+									dead = append(dead, fmt.Sprintf("%s on %s#%s", c, fs.kind, fs.local))
+								}
+							}
+						}
+					}
+				})
+				if len(dead) != 0 {
+					st.Fail(rt, "C09/early-release/socket-of-listed-candidate-closed", "candidate(s) still listed by the agent whose socket / allocation has already been closed: %v\nconfig: %+v\nops: %s", dead, cfg, strings.Join(ops, "; "))
+				}
+				ops = append(ops, "quiesce")
 			case "settle":
 				// give in-flight goroutines a drawn number of scheduler turns (no verdict depends on it)
 				c11Jitter(rapid.IntRange(0, 30).Draw(rt, "jitter"))
